@@ -23,6 +23,9 @@ CORPUS = os.path.join(vf.ROOT, "corpus", "C33.txt")
 QUICK_LANGS = ["rust", "c", "markdown", "moonbit"]
 THOROUGH_LANGS = QUICK_LANGS + ["go", "csharp", "cpp"]
 TINY_WIT = "package t:p;\n\nworld w {\n  /// doc\n  import f: func(x: u32) -> string;\n  export g: func();\n}\n"
+# documentation with 2-, 3- and 4-byte UTF-8 sequences and a TAB (control characters are rejected by wit-parser)
+UNI_WIT = ("package t:p;\n\nworld w {\n  /// caf\u00e9 \u2192 \U0001F600 \u65e5\u672c nbsp\u00a0 ls\u2028 \ud7ff \ufffd \U0010fffd\n  ///\tTab\n"
+           "  import f: func(x: u32) -> string;\n  export g: func();\n}\n")
 
 
 def build_model():
@@ -102,7 +105,7 @@ def run_group(exe, gid, lang, wit, scenarios_fn, workdir):
         shutil.rmtree(d, ignore_errors=True)
         return {"gid": gid, "lang": lang, "ok": False, "err": err.strip().split("\n")[-1][:200], "records": []}
     res = {"gid": gid, "lang": lang, "ok": True, "names": names, "records": [], "unstable": [], "skipped_runs": 0}
-    bad = unstable_files(exe, lang, wit, d, names, files, 2)
+    bad = unstable_files(exe, lang, wit, d, names, files, 1)
     if bad is None:
         res["unstable"] = ["<file list>"]; shutil.rmtree(d, ignore_errors=True); return res
     res["unstable"] = sorted(bad)
@@ -166,7 +169,7 @@ def load_corpus():
 
 def run(ctx):
     quick = ctx.tier == "quick"
-    n_worlds, n_scen, langs = (10, 4, QUICK_LANGS) if quick else (120, 10, THOROUGH_LANGS)
+    n_worlds, n_scen, langs = (8, 4, QUICK_LANGS) if quick else (60, 8, THOROUGH_LANGS)
     ctx.assumptions += [
         "model: the file system is what the loop observes: fs p = Some bytes iff std::fs::read(dst) succeeds (missing file, directory in place => None); files = generator output in BTreeMap order",
         "model: str::from_utf8 = well-formed UTF-8 (Unicode table 3-7), char::is_control = category Cc (U+0000-001F, U+007F-009F), str::lines as in Core/Config.v (shared with C34, tied there too)",
@@ -204,6 +207,9 @@ def _run(ctx, workdir, n_worlds, n_scen, langs):
                     sc.append([{"kind": k, "file": f, "a": r.below(1 << 30), "b": r.below(1 << 16)}])
             return sc if ctx.tier != "quick" else [sc[0]] + [sc[1 + r.below(len(sc) - 1)] for _ in range(12)]
         groups.append((gid, lang, TINY_WIT, all_kinds, "tiny")); gid += 1
+        groups.append((gid, lang, UNI_WIT, (lambda r: (lambda names, files: [[]] + [[{"kind": k, "file": f, "a": r.below(1 << 30), "b": r.below(1 << 16)}]
+                                                                                   for f in names if L.is_text(files[f]) and any(c > 127 for c in files[f])
+                                                                                   for k in ("crlf_all", "crlf_some", "crlf_plus_alter", "insert_nonascii")]))(rng.fork(gid)), "unicode")); gid += 1
     for i in range(n_worlds):
         feats = [f for f in ["resources", "futures", "streams", "async"] if rng.chance(1, 3)] + \
                 ([rng.choice(["fixed", "maps", "errctx"])] if rng.chance(1, 6) else [])
